@@ -425,7 +425,9 @@ func Extract(_ *log.Logger, bucketURL string, key string, minzoom int8, maxzoom 
 
 	// TODO: takes up too much RAM
 	// construct the directories
-	newRootBytes, newLeavesBytes, _ := optimizeDirectories(reencoded, 16384-HeaderV3LenBytes, Gzip)
+	// the header keeps the source's internal compression (the metadata is copied verbatim), so the
+	// new directories must be written with it too
+	newRootBytes, newLeavesBytes, _ := optimizeDirectories(reencoded, 16384-HeaderV3LenBytes, header.InternalCompression)
 
 	// 7. write the modified header
 	header.RootOffset = HeaderV3LenBytes
